@@ -658,6 +658,10 @@ def _split_msh(content):
         if len(seps) > len(set(seps)):
             raise InvalidEncodingChars("Found duplicate encoding chars")
 
+        if any(c.isspace() for c in seps):
+            # segments are stripped while parsing: a blank cannot be an encoding char
+            raise InvalidEncodingChars("Found a blank among the encoding chars")
+
         try:
             comp_sep, rep_sep, escape, sub_sep = seps
             trunc_sep = None
